@@ -48,6 +48,7 @@ class Gen:
         self.clauses = {}        # (fn, section, name) -> props
         self.unit = os.path.splitext(os.path.basename(unit_path))[0]
         self.regions = {}
+        self.externs = []        # (package, [crate names]) linked as real crates
         self.canary = None       # None | 'entry' | 'exit'  (vacuity guard variants, see vrun.run_canaries)
         self.fn_props = {}
         self.loop_counts = {}
@@ -89,6 +90,11 @@ class Gen:
                 cmd = d[0]
                 if cmd == 'unit':
                     self.unit = d[1]
+                    i += 1
+                elif cmd == 'extern':
+                    # //@ extern <package> <crate>...: link the real dependency crates of <package> (built from the
+                    # repo's Cargo.lock with Verus' own toolchain) instead of declaring stand-ins for them
+                    self.externs.append((d[1], d[2:]))
                     i += 1
                 elif cmd == 'region':
                     opts = _opts(d[2:])
@@ -316,6 +322,13 @@ class Gen:
             impl_match = '%s for %s' % (m.group(1), m.group(2))
         impl_match = impl_match.replace('~', ' ')
         f = self.rf(rel)
+        if 'optional' in opts:
+            # a helper that only some versions of the code have: its contract applies when it exists
+            try:
+                it = f.find_fn(name, impl_match)
+            except rsx.LostAnchor:
+                self.dropped_loop_sections.append('%s: optional function %s::%s is absent; its contract is not used' % (rel, impl_match, name))
+                return
         it = f.find_fn(name, impl_match)
         qual = (impl_match + '::' if impl_match != '-' else '') + name
         qual = opts.get('as', qual)
